@@ -102,6 +102,7 @@ func OracleC05(ex *Exec) *Obs {
 			topExt = true
 		}
 	}
+	unwrapsBy := map[common.AddressBytes]int{}
 	for _, r := range ex.T.Ops {
 		k := kindOf(ex, r)
 		if k == "" {
@@ -141,6 +142,11 @@ func OracleC05(ex *Exec) *Obs {
 		}
 		if ok {
 			o.class(k + ":success:" + reg)
+			if k == "LOCKUP-UNWRAP" {
+				if unwrapsBy[r.Self.Bytes20()]++; unwrapsBy[r.Self.Bytes20()] == 2 {
+					o.class("LOCKUP-UNWRAP:second-success-by-one-owner-in-one-transaction")
+				}
+			}
 			if newEtx != 1 {
 				o.bad("success-without-single-etx:"+k, "%s reported success but %d outbound ETXs were recorded", k, newEtx)
 			} else {
